@@ -2,7 +2,8 @@
    kind of its type (n = not a pointer, i = `^`, m = `^mut`):
      L:k id mu 0 | L:k id mu 1 <path> | A:k i | G:k g | F:k <path> f | X:k <path> | D:k <path>
      | P:k <path> | U:k <path> | B:k <path> | R:k m <path> | C:k id | K:k id | T:k | O:k id
-   stdout: "<assign_accepted> <ref_mut_accepted> <place> <suspect _ false> <typed> <mutability>" *)
+   stdout: "<assign_accepted> <ref_mut_accepted> <place> <suspect _ false> <typed> <mutability>
+            <assign_accepted fixed> <ref_mut_accepted fixed>"   (fixed = through_pointer repair) *)
 open Conv
 open Mutability
 
@@ -55,7 +56,8 @@ let () =
     let pk q = match List.assoc_opt q tb with Some k -> k | None -> None in
     if !conflict then print_endline "ORACLE-CONFLICT" else
     print_endline (String.concat " " [
-      b2s (assign_accepted pk p); b2s (ref_mut_accepted pk p);
+      b2s (assign_accepted false pk p); b2s (ref_mut_accepted false pk p);
       (match MutSpec.place pk p with MutSpec.Mut -> "Mut" | MutSpec.Immut -> "Immut" | MutSpec.Temp -> "Temp");
       b2s (MutSpec.suspect pk p false); b2s (MutSpec.typed pk p);
-      mut_str (get_mutability pk p true false) ]))
+      mut_str (get_mutability false pk p true false);
+      b2s (assign_accepted true pk p); b2s (ref_mut_accepted true pk p) ]))
